@@ -70,6 +70,9 @@ func (a *actor) start(f func()) string {
 	return a.wait()
 }
 func (a *actor) step() string {
+	if a.at == "done" {
+		return a.at
+	}
 	current = a
 	a.resume <- struct{}{}
 	return a.wait()
@@ -110,6 +113,7 @@ type world struct {
 	nextVal  int
 	deleted  int
 	interlvd bool
+	offModel bool // the code left the order of steps the model knows: events are no longer emitted, the run goes on
 }
 
 func (w *world) fail(what string, err error) {
@@ -193,6 +197,9 @@ func (w *world) observe() string {
 }
 
 func (w *world) emit(ev string, observed bool) {
+	if w.offModel {
+		return
+	}
 	w.evs = append(w.evs, ev)
 	w.evJ = append(w.evJ, ev)
 	if observed {
@@ -311,7 +318,13 @@ func (w *world) dstep(i int) bool {
 			}
 		}
 	default:
-		return false
+		// the deleter stopped at a scheduling point in an order the model does not know (the code's steps were reordered)
+		if !w.offModel {
+			w.offModel = true
+			w.out.Violation(0, "model-cannot-follow", fmt.Sprintf("obsolete-file deletion parked at %q out of the order list, pending, active, remove", a.at), nil)
+		}
+		a.step() // go on without the model: the files of every version are looked for at the end
+
 	}
 	return true
 }
@@ -556,8 +569,37 @@ func runHistory(out *vh.Out, root string, id int, name string, script []string, 
 	for len(w.snaps) > 0 && !w.failed {
 		w.closeSnap(0)
 	}
+	if w.failed { // a failure during the drain: run what is still parked to its end
+		if w.flActor != nil && w.flState == 2 {
+			w.flActor.step()
+			w.flState = 0
+		}
+		for _, d := range w.dels {
+			for d.at != "done" {
+				d.step()
+			}
+		}
+		for _, h := range w.snaps {
+			h.snap.Close()
+		}
+		w.snaps = nil
+	}
 	verifhook.Set(nil)
 	kv.VerifWaitBackground(w.fam)
+	if w.offModel {
+		// without the model: the property itself on the implementation - every file of the current version is on disk
+		tmp := w.fam.GetSnapshot()
+		have := map[int]bool{}
+		for _, n := range w.tables() {
+			have[n] = true
+		}
+		for _, n := range filesOf(tmp) {
+			if !have[n] {
+				out.Violation(0, "file-of-the-current-version-deleted", fmt.Sprintf("table %06d.sst is in the current version but not on disk", n), nil)
+			}
+		}
+		tmp.Close()
+	}
 	_ = kv.GetStoreManager().CloseStore(w.dir)
 	out.CountN("model-events", len(w.evs))
 	out.CountN("files-deleted", w.deleted)
